@@ -174,4 +174,122 @@ theorem Coords.reverse_ne (c : Coords) (i : Nat) (h : c.axisAsym i) : c.reverse 
     simp only [Coords.reverse, Coords.unstructured.injEq] at e
     exact hd (map_eq_self_mem _ a e x (List.mem_of_getElem? hx))
 
+/-! ### float-like shift: `Coords.shiftR rnd` -/
+
+theorem zipWith_eq_self_iff {α β} (k : α → β → α) : ∀ (a : List α) (b : List β), b.length = a.length →
+    (List.zipWith k a b = a ↔ ∀ i (h1 : i < a.length) (h2 : i < b.length), k a[i] b[i] = a[i])
+  | [], b, _ => by simp
+  | x :: xs, [], h => by simp at h
+  | x :: xs, y :: ys, h => by
+    have ih := zipWith_eq_self_iff k xs ys (by simpa using h)
+    simp only [List.zipWith_cons_cons, List.cons.injEq, ih, List.length_cons]
+    constructor
+    · rintro ⟨h0, hs⟩ i h1 h2
+      cases i with
+      | zero => simpa using h0
+      | succ i => simpa using hs i (by omega) (by omega)
+    · intro hall
+      refine ⟨by simpa using hall 0 (by omega) (by omega), fun i h1 h2 => ?_⟩
+      have := hall (i + 1) (by omega) (by omega)
+      simp only [List.getElem_cons_succ] at this
+      exact this
+
+theorem map_eq_self_iff {α} (g : α → α) (l : List α) : l.map g = l ↔ ∀ x ∈ l, g x = x := by
+  induction l with
+  | nil => simp
+  | cons y ys ih => simp [ih]
+
+theorem Coords.shiftVals_length (c : Coords) : c.shiftVals.length = c.ndim := by
+  cases c <;> simp [Coords.shiftVals, Coords.ndim]
+
+theorem Coords.shiftR_id (c : Coords) (b : List Rat) : c.shiftR id b = c.shift b := by
+  cases c <;> rfl
+
+/-- an in-place float shift leaves the coordinates as they were iff every rewritten value absorbs its shift -/
+theorem Coords.shiftR_eq_self_iff (rnd : Rat → Rat) (c : Coords) (b : List Rat) (hl : b.length = c.ndim) :
+    c.shiftR rnd b = c ↔
+      ∀ i (h1 : i < c.shiftVals.length) (h2 : i < b.length), ∀ x ∈ c.shiftVals[i], rnd (x + b[i]) = x := by
+  cases c with
+  | regular a =>
+    simp only [Coords.shiftR, Coords.regular.injEq, Coords.shiftVals, List.length_map, List.getElem_map,
+      List.mem_singleton, forall_eq]
+    rw [zipWith_eq_self_iff _ a b (by simpa [Coords.ndim] using hl)]
+    constructor
+    · intro h i h1 h2
+      have := congrArg RegAxis.zero (h i h1 h2)
+      simpa using this
+    · intro h i h1 h2
+      have := h i h1 h2
+      cases hx : a[i] with
+      | mk d n z => simp only [hx] at this ⊢; rw [this]
+  | separated a =>
+    simp only [Coords.shiftR, Coords.separated.injEq, Coords.shiftVals]
+    rw [zipWith_eq_self_iff _ a b (by simpa [Coords.ndim] using hl)]
+    simp only [map_eq_self_iff]
+  | unstructured a =>
+    simp only [Coords.shiftR, Coords.unstructured.injEq, Coords.shiftVals]
+    rw [zipWith_eq_self_iff _ a b (by simpa [Coords.ndim] using hl)]
+    simp only [map_eq_self_iff]
+
+theorem Coords.WF_shiftR (rnd : Rat → Rat) (c : Coords) (b : List Rat) (h : b.length = c.ndim) (hw : c.WF) :
+    (c.shiftR rnd b).WF := by
+  cases c with
+  | regular a =>
+    simp only [Coords.WF, Coords.shiftR, Coords.ndim] at *
+    cases a <;> cases b <;> simp_all
+  | separated a =>
+    simp only [Coords.WF, Coords.shiftR, Coords.ndim] at *
+    cases a <;> cases b <;> simp_all
+  | unstructured a =>
+    simp only [Coords.WF, Coords.shiftR, Coords.ndim] at *
+    cases a with
+    | nil => exact absurd rfl hw.1
+    | cons c0 cs =>
+      cases b with
+      | nil => simp at h
+      | cons b0 bs =>
+        refine ⟨by simp, ?_⟩
+        have hr := hw.2
+        simp only [rect, List.all_eq_true, beq_iff_eq] at hr
+        simp only [List.zipWith_cons_cons, rect, List.all_eq_true, beq_iff_eq, List.length_map]
+        intro d hd
+        obtain ⟨i, hi, rfl⟩ := List.getElem_of_mem hd
+        simp only [List.getElem_zipWith, List.length_map]
+        exact hr _ (List.getElem_mem _)
+
+theorem zipWith_replicate_self {α β} (k : α → β → α) (v : β) (hk : ∀ x, k x v = x) :
+    ∀ (a : List α), List.zipWith k a (List.replicate a.length v) = a
+  | [] => rfl
+  | x :: xs => by simp [List.replicate_succ, hk, zipWith_replicate_self k v hk xs]
+
+/-- scaling by one along every axis does nothing -/
+theorem Coords.scale_one (c : Coords) : c.scale (List.replicate c.ndim 1) = c := by
+  cases c with
+  | regular a =>
+    simp only [Coords.scale, Coords.ndim, Coords.regular.injEq]
+    exact zipWith_replicate_self _ 1 (fun x => by cases x; simp) a
+  | separated a =>
+    simp only [Coords.scale, Coords.ndim, Coords.separated.injEq]
+    exact zipWith_replicate_self _ 1 (fun x => by simp) a
+  | unstructured a =>
+    simp only [Coords.scale, Coords.ndim, Coords.unstructured.injEq]
+    exact zipWith_replicate_self _ 1 (fun x => by simp) a
+
+theorem Coords.absorbs_iff (rnd : Rat → Rat) (c : Coords) (b : List Rat) :
+    c.absorbs rnd b = true ↔
+      ∀ i (h1 : i < c.shiftVals.length) (h2 : i < b.length), ∀ x ∈ c.shiftVals[i], rnd (x + b[i]) = x := by
+  simp only [Coords.absorbs, List.all_eq_true, decide_eq_true_eq]
+  constructor
+  · intro h i h1 h2 x hx
+    have hm : (c.shiftVals[i], b[i]) ∈ List.zip c.shiftVals b := by
+      rw [List.mem_iff_getElem]
+      exact ⟨i, by simp [h1, h2], by simp⟩
+    exact h _ hm x hx
+  · intro h vb hvb x hx
+    obtain ⟨i, hi, e⟩ := List.mem_iff_getElem.mp hvb
+    simp only [List.length_zip, Nat.lt_min] at hi
+    simp only [List.getElem_zip] at e
+    subst e
+    exact h i hi.1 hi.2 x hx
+
 end HcipyVerif.Grid
